@@ -20,6 +20,10 @@ macro_rules! dispatch {
             "C05" => $f(props::c05::C05, $($arg),*),
             "C06" => $f(props::c06::C06, $($arg),*),
             "C07" => $f(props::c07::C07, $($arg),*),
+            "C08" => $f(props::c08::C08, $($arg),*),
+            "C09" => $f(props::c09::C09, $($arg),*),
+            "C16" => $f(props::c16::C16, $($arg),*),
+            "C17" => $f(props::c17::C17, $($arg),*),
             _ => { eprintln!("unknown property {}", $id); 2 }
         }
     };
